@@ -296,8 +296,9 @@ impl Core {
     fn check_meta(&self, s: &Session, oi: &ObjInfo, r: &Rec) -> Vec<(&'static str, String)> {
         let mut f = Vec::new();
         let m = &r.meta;
-        if m.content_location != location(oi.idx) {
-            f.push(("C01:meta-location", format!("{} != {}", m.content_location, location(oi.idx))));
+        let loc = location(oi.p.loc.unwrap_or(oi.idx));
+        if m.content_location != loc {
+            f.push(("C01:meta-location", format!("{} != {}", m.content_location, loc)));
         }
         if m.content_length != Some(oi.p.sz as usize) {
             f.push(("C01:meta-length", format!("{:?} != {}", m.content_length, oi.p.sz)));
@@ -505,9 +506,53 @@ impl Core {
                 Ok(files) => {
                     for (toi, bytes) in files {
                         let oi = s.objs.iter().find(|x| x.toi == Some(toi)).unwrap();
+                        let eff = |x: &ObjInfo| x.p.loc.unwrap_or(x.idx);
+                        let shared = s.objs.iter().filter(|x| x.toi.is_some() && eff(x) == eff(oi)).count() > 1;
+                        // when the writer of this TOI completed for the last time (fed position), if its last writer completed
+                        let last_done = |t: u128| -> Option<usize> {
+                            let recs: Vec<_> = rx.recs.iter().filter(|r| r.toi == t).collect();
+                            match recs.last() {
+                                Some(r) if count(r, 'c') > 0 => r.done_at.get(),
+                                _ => None,
+                            }
+                        };
                         let completed = rx.recs.iter().any(|r| r.toi == toi && count(r, 'c') > 0);
-                        let last_ok = rx.recs.iter().filter(|r| r.toi == toi).last().map(|r| count(r, 'c') > 0).unwrap_or(false);
-                        if !completed || !last_ok {
+                        let mine = match last_done(toi) {
+                            Some(d) => d,
+                            None => continue,
+                        };
+                        if !completed {
+                            continue;
+                        }
+                        if shared {
+                            // successive versions of one file: the file holds the version completed LAST; every writer of
+                            // the location must have ended before (no writer still open / failed in between is judged)
+                            let group: Vec<&ObjInfo> = s.objs.iter().filter(|x| x.toi.is_some() && eff(x) == eff(oi)).collect();
+                            let all_done = group.iter().all(|x| {
+                                let recs: Vec<_> = rx.recs.iter().filter(|r| Some(r.toi) == x.toi).collect();
+                                !recs.is_empty() && recs.iter().all(|r| count(r, 'c') > 0)
+                            });
+                            let newest = group.iter().filter_map(|x| last_done(x.toi.unwrap())).max();
+                            if !all_done || newest != Some(mine) {
+                                continue;
+                            }
+                            match bytes {
+                                None => o.fail("C01:fs-file-ne-object", &format!("object {} (last completed version of {}): no file under the destination directory", oi.idx, location(eff(oi)))),
+                                Some(b) => {
+                                    if b != *oi.content.as_ref().unwrap() {
+                                        o.fail(
+                                            "C01:fs-file-ne-object",
+                                            &format!(
+                                                "{}: the file has {} bytes, the version completed last (object {}) has {} - the file must hold exactly the last completed version",
+                                                location(eff(oi)),
+                                                b.len(),
+                                                oi.idx,
+                                                oi.content.as_ref().unwrap().len()
+                                            ),
+                                        )
+                                    }
+                                }
+                            }
                             continue;
                         }
                         match bytes {
